@@ -255,8 +255,8 @@ def replay_case(case):
 
 def main(ctx):
     S = ctx.seed
-    n = 3 if ctx.quick else 6
-    ens = 2
+    n = 3 if ctx.quick else 8
+    ens = 2 if ctx.quick else 3
     calls_per_batch = ens * 2
     cells = []
     model_faults = [("model", k) for k in range(n * calls_per_batch)]
